@@ -277,6 +277,13 @@ func runHistory(h []int, expected []string) (step int, got string) {
 			shared[op.pat] = re
 		}
 		if g := op.run(re); g != expected[oi] {
+			if g == "error:timeout" && op.name == "no timeout" {
+				// a quick timed call descheduled past its 25 ms deadline on a loaded machine
+				// (wall-clock semantics, not state leakage): try the step once more
+				if g = op.run(re); g == expected[oi] {
+					continue
+				}
+			}
 			return k, g
 		}
 	}
